@@ -22,3 +22,62 @@ package packet
 //@ note left-pads b with zeros to the size of the modulus; the key object (not input) is assumed well formed (non-nil modulus)
 //@ modifies heap
 //@ ensures len(result) >= len(b)
+
+// ---- packet framing: lengths are never negative, readers never slice out of range ----
+// (the wrapped io.Reader is assumed to write only into the buffer it is given and to keep 0 <= n <= len(p))
+//@ func readFull
+//@ props C45
+//@ assume_global io.EOF != nil && io.ErrUnexpectedEOF != nil
+//@ modifies buf[0:len(buf)]
+//@ ensures 0 <= n && n <= len(buf) && iff(err == nil, n == len(buf))
+
+// readLength (RFC 4880 section 4.2.2): one-, two- and five-octet lengths and partial body lengths 2^(b & 31);
+// never negative, and in the range its encoding allows
+//@ func readLength
+//@ props C45
+//@ ensures 0 <= length && length <= 4294967295
+//@ ensures implies(err == nil && isPartial, 1 <= length && length <= 2147483648)
+//@ canary ensures err != nil
+
+// readHeader: -1 stands for "until EOF" (old format length type 3, or partial lengths), otherwise the
+// length is not negative; the content reader is bounded by that length
+//@ func readHeader
+//@ props C45
+//@ requires r != nil
+//@ modifies heap
+//@ ensures implies(err == nil, length >= -1 && contents != nil)
+//@ loop 1 invariant 0 <= i && i <= lengthBytes && 0 <= length && length < spec.pow2f(8 * i)
+//@ canary ensures err != nil
+
+//@ func (*partialLengthReader).Read
+//@ props C45
+//@ nonnil r
+//@ requires r.remaining >= 0 && r.r != nil
+//@ modifies r.remaining
+//@ modifies r.isPartial
+//@ modifies p[0:len(p)]
+//@ ensures r.remaining >= 0 && 0 <= n && n <= len(p)
+//@ loop 1 invariant r.remaining >= 0 && r.r == old(r.r)
+//@ canary ensures err != nil
+
+//@ func (*spanReader).Read
+//@ props C45
+//@ nonnil l
+//@ requires l.n >= 0 && l.r != nil
+//@ modifies l.n
+//@ modifies p[0:len(p)]
+//@ ensures l.n >= 0 && 0 <= n && n <= len(p)
+//@ canary ensures err != nil
+
+// signature subpacket framing (RFC 4880 section 5.2.3.1): a subpacket returned without error lies inside
+// the bytes it was cut from, so the walk over a subpacket area never slices out of range
+//@ func nextSubpacket
+//@ props C45
+//@ fresh subPacket
+//@ ensures implies(err == nil, subPacket != nil && (subHeaderLen == 2 || subHeaderLen == 3 || subHeaderLen == 6) && subHeaderLen + len(subPacket.Contents) <= len(contents))
+//@ canary ensures err != nil
+
+//@ func OpaqueSubpackets
+//@ props C45
+//@ modifies heap
+//@ canary ensures err != nil
